@@ -381,6 +381,37 @@ pub fn run(ctx: &Ctx) -> i32 {
             if elsewhere {
                 pre.push_str(".cseg\n");
             }
+            // the macro-call line writes every number as a computed expression of the same value whose grouping
+            // matters: an argument is text that is rendered and read again
+            if round >= 2 {
+                for (i, v) in vals.iter().enumerate() {
+                    if matches!(form.ops[i], Opk::Imm { .. } | Opk::ImmCom { .. } | Opk::Addr8l { .. }) && *v >= 0 {
+                        direct[i] = match r.below(10) {
+                            0 => format!("{}-(10-4)", v + 6),
+                            1 => format!("{}/(8/4)", v * 2),
+                            2 => format!("{}*(3/3)", v),
+                            3 => format!("{}-(1+2)", v + 3),
+                            4 => format!("({})", v),
+                            5 => format!("{}*(7/4)", v),
+                            6 => format!("{}/(9/3)", v * 3),
+                            7 => format!("{}-(5%5)", v),
+                            8 => format!("{}>>(2>>1)", v * 2),
+                            _ => format!("{}|(0&7)", v),
+                        };
+                    }
+                }
+            }
+            // data in front of the instructions, sized by its bytes: strings whose byte count is not their
+            // character count, or that hold what looks like an escape
+            let mut data: Vec<u8> = vec![];
+            if round % 4 >= 2 {
+                let t = crate::gen::ir::hostile_string(&mut r, false);
+                pre.push_str(&format!(".db \"{}\"\n", t));
+                data.extend(t.as_bytes());
+                if data.len() % 2 == 1 {
+                    data.push(0);
+                }
+            }
             let params: Vec<String> = (0..vals.len()).map(|i| format!("@{}", i)).collect();
             let src = format!(
                 "{}.macro enc_mac\n\t{} {}\n.endm\n\t{} {}\n\tenc_mac {}\n\tEnc_Mac {}\n",
@@ -394,6 +425,7 @@ pub fn run(ctx: &Ctx) -> i32 {
             );
             let w = isa::words_to_bytes(&isa::encode(form, &vals));
             let mut expect = vec![0u8; header_pad(form)];
+            expect.extend(&data);
             for _ in 0..3 {
                 expect.extend(&w);
             }
@@ -451,7 +483,7 @@ pub fn run(ctx: &Ctx) -> i32 {
     crate::refmodel::llvm::crosscheck(ctx, ctx.tier == Tier::Thorough);
     fw::finish(
         ctx,
-        "every ISA-legal operand tuple of every supported instruction form is assembled (batches of 4096 lines, random radix/case/blank spelling) and compared byte-for-byte with the reference encoder and re-decoded by an independent decoder; plus a high-address slice (48 tuples per form behind .org 0x12345) an interleaving slice (3000 single-line builds on one thread alternating between the reduced core, no device and random forms) and an operand-path slice (8 tuples per form written through .def aliases, .equ/.set symbols and macro arguments); `exhaustive` refers to the spaces listed under complete_spaces; distinct_nontrivial = distinct first instruction words emitted (bitmap over 65536)",
+        "every ISA-legal operand tuple of every supported instruction form is assembled (batches of 4096 lines, random radix/case/blank spelling) and compared byte-for-byte with the reference encoder and re-decoded by an independent decoder; plus a high-address slice (48 tuples per form behind .org 0x12345) an interleaving slice (3000 single-line builds on one thread alternating between the reduced core, no device and random forms) and an operand-path slice (8 tuples per form written through .def aliases, .equ/.set symbols and macro arguments, the macro arguments also as computed expressions with right-grouped operands, half of them behind a `.db` string whose byte count differs from its character count or that holds backslash sequences); `exhaustive` refers to the spaces listed under complete_spaces; distinct_nontrivial = distinct first instruction words emitted (bitmap over 65536)",
         &[
             "refmodel/isa.rs is a faithful transcription of the AVR Instruction Set Manual (self-checked decode∘encode, cross-checked against llvm-mc-14 where available)",
             "relative operands are written as pc±k at word address 4096; label-based targets belong to C03",
